@@ -280,9 +280,17 @@ func TestVerifC19RelayLockstep(t *testing.T) {
 		sc := vf19DrawScript(rt, true)
 		c := vf19Setup(sc)
 		defer c.shutdown()
+		vf19RunLockstep(rt, e, "relay-lock", sc, c, "", nil)
+	})
+}
+
+// vf19RunLockstep drives one prepared case (scripts sc on the conns of c; side b
+// of copyLoop is c.bConn when set) in lock-step and reports it.
+func vf19RunLockstep(rt *rapid.T, e *ev.Collector, prefix string, sc [2]*vf19Side, c *vf19Case, extra string, extraCls []string) {
+	{
 		var plan []string
 		hist := func() string {
-			return fmt.Sprintf("script side0=%v side1=%v\nplan: %s", sc[0].describe(), sc[1].describe(), strings.Join(plan, " "))
+			return fmt.Sprintf("%sscript side0=%v side1=%v\nplan: %s", extra, sc[0].describe(), sc[1].describe(), strings.Join(plan, " "))
 		}
 		c.start()
 		if stuck := c.waitQuiescent(); stuck != "" {
@@ -343,12 +351,22 @@ func TestVerifC19RelayLockstep(t *testing.T) {
 		if msg := vf19Verdict(c, sc, !done, hist); msg != "" {
 			rt.Fatalf("%s", msg)
 		}
-		classes, nt := vf19RelayClasses("relay-lock", c, sc)
+		classes, nt := vf19RelayClasses(prefix, c, sc)
+		classes = append(classes, extraCls...)
+		if prefix == "relay-proxied" {
+			// non-trivial here: the local side ends first while the proxied side is silent
+			c.mu.Lock()
+			nt = len(c.terms) > 0 && c.terms[0].side == 0 && sc[1].term < 0
+			c.mu.Unlock()
+			if nt {
+				classes = append(classes, prefix+"-local-side-ends-while-proxied-side-is-silent")
+			}
+		}
 		p := append([]string(nil), plan...)
-		e.Case(ev.Hash("lock", fmt.Sprint(sc[0].describe()), fmt.Sprint(sc[1].describe()), strings.Join(plan, " ")), nt, classes, func() any {
-			return map[string]any{"mode": "lock-step", "side0": sc[0].describe(), "side1": sc[1].describe(), "plan": p}
+		e.Case(ev.Hash(prefix, extra, fmt.Sprint(sc[0].describe()), fmt.Sprint(sc[1].describe()), strings.Join(plan, " ")), nt, classes, func() any {
+			return map[string]any{"mode": "lock-step", "unit": prefix, "setup": extra, "side0": sc[0].describe(), "side1": sc[1].describe(), "plan": p}
 		})
-	})
+	}
 }
 
 func TestVerifC19RelayFree(t *testing.T) {
